@@ -514,6 +514,34 @@ def run(db: DB, rep: Report) -> None:
               "block time is max(...) over exactly the per-component times",
               "the per-block combination in __build_time is not EFunc('max') over all per-component "
               "times (found: %s)" % (norm(maxes[0]) if maxes else "no EFunc"), decided=bad_max)
+    # every value a block contributes to the total is built from the per-component accumulators
+    accs = [n for n in walk_no_nested(fn) if isinstance(n, ast.Assign) and isinstance(n.targets[0], ast.Name)
+            and _is_ctor(n.value, "EBinOp") and len(n.value.args) == 3 and
+            isinstance(n.value.args[0], ast.Name) and n.value.args[0].id == n.targets[0].id and
+            isinstance(n.value.args[2], ast.Name)]
+    blk_names = {n.value.args[2].id for n in accs if any(
+        isinstance(p_, ast.For) and "get_blocks" in paths.called_names([p_.iter])
+        for p_ in paths.parents(n, fn))}
+    left = {id(x): (lp, nm) for x, lp, nm in paths.leftover_uses(fn)}
+    for bname in sorted(blk_names):
+        for st, v in paths.defs_of(fn, bname):
+            if v is None:
+                continue
+            kind_, good, known = "?", False, False
+            if isinstance(v, ast.Subscript) and dict_name and norm(v.value) == dict_name:
+                kind_, good, known = "accumulator " + norm(v)[:40], True, True
+            elif _is_ctor(v, "EFunc"):
+                kind_, good, known = "EFunc (checked as rollup:max)", True, True
+            elif _is_ctor(v, "EInt"):
+                kind_, good, known = norm(v), True, True
+            elif isinstance(v, ast.Name) and id(v) in left:
+                lp, nm = left[id(v)]
+                kind_, good, known = "'%s', left over from the loop over %s" % (nm, norm(lp.iter)[:30]), False, True
+            rep.check("M5", good, db.loc(st), bt.short, "rollup:block-value:" + norm(v)[:40],
+                      "the block's time %s = %s" % (bname, kind_),
+                      "the time a block contributes to the total is %s instead of a per-component "
+                      "accumulator: what the other Einsums of the block added to that component is dropped" %
+                      kind_, decided=known)
     # the value stored in metrics["time"] is the cross-block accumulator
     sites = time_sites(db, bt)
     ok = False
@@ -541,6 +569,8 @@ def mutants(db: DB):
     col = "teaal/trans/collector.py"
     comp = "teaal/ir/component.py"
     return [
+        M("single-component block uses the last Einsum's time", col,
+          "                block_time = component_time[comp]", "                block_time = new_time", "M5"),
         M("delete add_component (compute)", col, "            self.fusion.add_component(einsum, fu.get_name())\n",
           "", "M1"),
         M("register a different name (sequencers)", col, "self.fusion.add_component(einsum, seq.get_name())",
